@@ -124,11 +124,24 @@ func family(f int) *Scenario {
 		return &Scenario{Subs: []SubCfg{a, b, c},
 			Lanes: [][]Op{{{"sub", 1, 0}, {"cancelctx", 1, 0}, {"unsub", 1, 0}}, {{"sub", 2, 0}}, {{"cancelctx", 2, 0}}, {{"sub", 3, 0}},
 				{{"update", 1, 3}, {"update", 1, 6}, {"complete", 1, 0}}, {{"update", 1, 4}}}}
+	case 21: // slow client and a FAILED update: the event is not valid JSON, the error is being written (WriteError parks inside
+		// the call) while the client unsubscribes / a heartbeat tick arrives / the next update comes
+		a := sub(1, 0, 1)
+		a.Hb = true
+		return &Scenario{Subs: []SubCfg{a}, MaxTicks: 1,
+			Lanes: [][]Op{{{"sub", 1, 0}}, {{"update", 1, 100}, {"update", 1, 3}}, {{"unsub", 1, 0}}}}
+	case 22: // a SYNCHRONOUS subscriber whose Flush fails (connection broken while an event is written): the failed flush
+		// removes it, ResolveGraphQLSubscription has to return; a second, asynchronous subscriber shares the trigger
+		a, b := sub(1, 0, 1), sub(2, 0, 2)
+		a.Sync = true
+		a.FFail = 4
+		return &Scenario{Subs: []SubCfg{a, b},
+			Lanes: [][]Op{{{"sub", 1, 0}}, {{"sub", 2, 0}, {"unsub", 2, 0}}, {{"update", 1, 4}, {"update", 1, 5}}}}
 	}
 	return nil
 }
 
-const nFamilies = 21
+const nFamilies = 23
 
 // random scenarios: 1-3 subscribers on 1-2 triggers, random outcomes and op lanes
 func genScenario(r *common.Rand) *Scenario {
